@@ -13,6 +13,10 @@ pub struct Scenario {
     pub pre: Vec<Call>,
     pub threads: Vec<Vec<Call>>,
     pub main_during: Vec<Call>,
+    /// when set, the main task clones the view before the clients start; clients with an odd
+    /// number work on the clone, the others (and the main task) on the original; the post-phase
+    /// covers both
+    pub clone_split: bool,
 }
 
 const PIECES: [&str; 4] = ["", "a", "bb", "é"];
@@ -25,8 +29,26 @@ pub fn gen_text(rng: &mut Rng) -> String {
     let weights = [14u32, 24, 26, 18, 10, 8];
     // 2 % are long (60..260 lines): an implementation may batch its indexing (say 64 lines per
     // lock acquisition), and a workload that never exceeds the batch never leaves the first batch
+    if rng.chance(1, 100) {
+        // few lines, but long ones (thousands of bytes): an indexer that works in byte blocks
+        // (4096, 8192 ...) must leave its first block
+        let lines = 2 + rng.below(5);
+        let mut t = String::new();
+        for l in 0..lines {
+            let piece = *rng.pick(&PIECES[1..]);
+            t.push_str(&piece.repeat(rng.range_usize(500, 5000)));
+            if l + 1 < lines {
+                t.push_str(*rng.pick(&TERMS[..]));
+            }
+        }
+        return t;
+    }
     let terms = if rng.chance(1, 500) {
         rng.range_usize(1030, 1100)
+    } else if rng.chance(1, 100) {
+        // exactly a power of two (+-2) lines: the sizes internal batches are made of
+        let k = 6 + rng.below(5) as u32;
+        ((1i64 << k) + rng.below(4) as i64 - 2) as usize
     } else if rng.chance(1, 50) {
         rng.range_usize(60, 260)
     } else if rng.chance(1, 25) {
@@ -45,7 +67,9 @@ pub fn gen_text(rng: &mut Rng) -> String {
 }
 
 pub fn gen_call(rng: &mut Rng, nlines: u32) -> Call {
-    match rng.weighted(&[54, 23, 13, 6, 4]) {
+    match rng.weighted(&[52, 22, 12, 6, 4, 3, 1]) {
+        6 => Call::Source,
+        5 => Call::LinesTake(rng.below(nlines as u64 + 2) as u32),
         4 => Call::CloneGetLine(rng.below(nlines as u64 + 1) as u32),
         3 => {
             // a line request with a UTF-16 window: goes through get_line like the others
@@ -70,16 +94,20 @@ pub fn gen(rng: &mut Rng) -> Scenario {
     let n = RefView::new(&text).line_count() as u32;
     let npre = rng.weighted(&[55, 30, 15]);
     let pre = (0..npre).map(|_| gen_call(rng, n)).collect();
-    let nthreads = 2 + rng.weighted(&[55, 30, 15]);
+    // 2..4 clients with 1..3 calls each; 1 % of scenarios on small texts have a crowd of 8..16
+    // clients with one call each (waiter queues, per-thread slots)
+    let crowd = n <= 4 && rng.chance(1, 100);
+    let nthreads = if crowd { rng.range_usize(8, 16) } else { 2 + rng.weighted(&[55, 30, 15]) };
     let threads = (0..nthreads)
         .map(|_| {
-            let k = 1 + rng.weighted(&[50, 30, 20]);
+            let k = if crowd { 1 } else { 1 + rng.weighted(&[50, 30, 20]) };
             (0..k).map(|_| gen_call(rng, n)).collect()
         })
         .collect();
     let nmain = rng.weighted(&[70, 20, 10]);
     let main_during = (0..nmain).map(|_| gen_call(rng, n)).collect();
-    Scenario { text, pre, threads, main_during }
+    let clone_split = rng.chance(1, 12);
+    Scenario { text, pre, threads, main_during, clone_split }
 }
 
 impl Scenario {
@@ -89,6 +117,7 @@ impl Scenario {
             "pre": self.pre.iter().map(Call::to_json).collect::<Vec<_>>(),
             "threads": self.threads.iter().map(|t| t.iter().map(Call::to_json).collect::<Vec<_>>()).collect::<Vec<_>>(),
             "main_during": self.main_during.iter().map(Call::to_json).collect::<Vec<_>>(),
+            "clone_split": self.clone_split,
         })
     }
 
@@ -99,6 +128,7 @@ impl Scenario {
             pre: calls(v.get("pre")?)?,
             threads: v.get("threads")?.as_array()?.iter().map(calls).collect::<Option<Vec<_>>>()?,
             main_during: calls(v.get("main_during")?)?,
+            clone_split: v.get("clone_split").and_then(|b| b.as_bool()).unwrap_or(false),
         })
     }
 
@@ -117,6 +147,7 @@ impl Scenario {
             calls(t, &mut h);
         }
         calls(&self.main_during, &mut h);
+        h.u64(self.clone_split as u64);
         h.finish()
     }
 
@@ -134,6 +165,11 @@ impl Scenario {
                 s.threads.remove(i);
                 out.push(s);
             }
+        }
+        if self.clone_split {
+            let mut s = self.clone();
+            s.clone_split = false;
+            out.push(s);
         }
         if !self.main_during.is_empty() {
             let mut s = self.clone();
@@ -176,6 +212,8 @@ impl Scenario {
                 Call::GetLine(i) if *i == u32::MAX => vec![Call::GetLine(1), Call::GetLine(0)],
                 Call::GetLine(i) if *i > 0 => vec![Call::GetLine(i - 1)],
                 Call::CloneGetLine(i) => vec![Call::GetLine(*i)],
+                Call::LinesTake(_) => vec![Call::Lines, Call::LineCount],
+                Call::Source => vec![Call::LineCount],
                 _ => vec![],
             }
         };
